@@ -51,6 +51,7 @@ def rand_case(rnd, dist):
     tdt = rnd.choice(['uint8', 'int16', 'float32', 'float64', 'int8', 'float16']); ddt = rnd.choice(['uint8', 'uint8', 'int8', 'uint16', 'int32', 'float64'])
     info = (lambda d: (np.iinfo(d).min, np.iinfo(d).max) if np.dtype(d).kind in 'iu' else (-50, 50))
     lo, hi = info(tdt); traces = np.array([[rnd.randint(max(lo, -300), min(hi, 300)) for _ in range(S)] for _ in range(n)]).astype(tdt)
+    if tdt == 'float16': traces = np.array([[rnd.randint(200, 300) for _ in range(S)] for _ in range(n)]).astype(tdt)      # exactly representable samples whose column sums are not (> 2048)
     W = int(np.prod(wshape))
     if dist == 'DPA': data = np.array([[rnd.randint(0, 1) for _ in range(W)] for _ in range(n)], dtype='uint8')
     else:
@@ -77,6 +78,19 @@ def replay(case):
         got = float(np.asarray(getattr(d, attr)).reshape(-1)[0])
         return dict(reproduced=abs(got - exp) > 1e-6 * max(1, abs(exp)), got=got, expected=float(exp))
     dist = case.get('dist') or ('DPA' if case.get('kind') == 'dpa' else 'CPA')
+    if case.get('kind') == 'taint':
+        # directed search for a rounding effect: many traces with an offset, stored in the reported dtype, one batch
+        tdt = case.get('tdtype', 'float32'); prec = case.get('precision', 'float64')
+        for t in range(40):
+            n = rnd.choice([60, 200]); S = 2
+            if tdt == 'float16': traces = np.array([[rnd.randint(200, 300) for _ in range(S)] for _ in range(n)]).astype(tdt)
+            elif np.dtype(tdt).kind == 'f': traces = (np.array([[rnd.randint(0, 4095) / 4096.0 for _ in range(S)] for _ in range(n)]) + 1000).astype(tdt)
+            else: traces = np.array([[rnd.randint(0, 100) for _ in range(S)] for _ in range(n)]).astype(tdt)
+            data = np.array([[rnd.randint(0, 1) for _ in range(2)] for _ in range(n)], dtype='uint8') if dist == 'DPA' else np.array([[rnd.randint(0, 200) for _ in range(2)] for _ in range(n)]).astype(case.get('ddtype', 'uint8'))
+            try: r = check_dpa(traces, data, prec, [n]) if dist == 'DPA' else check_cpa(bool(case.get('alt')), traces, data, prec, [n])
+            except Exception as e: r = 'raises %r' % (e,)
+            if r: return dict(reproduced=True, detail=r, tdtype=tdt, precision=prec, traces=traces.tolist()[:4])
+        return dict(reproduced=False)
     for t in range(300):
         traces, data, splits = rand_case(rnd, dist)
         try:
